@@ -43,11 +43,12 @@ const prop = "C11"
 // fixture accounts
 
 var (
-	kV  = node.User(0)  // voter, 1090 LEMO (5 balance votes; a fee alone does not cross a step)
-	kW  = node.User(1)  // second voter, 700 LEMO (3 balance votes)
-	kX  = node.User(2)  // counterparty of V's transfers, 2000 LEMO, never votes
-	kC1 = node.K("c1")  // candidate registered in the prefix with deposit = MinCandidateDeposit
-	kC2 = node.K("c2")  // prospective candidate (registered by an alphabet tx)
+	kV  = node.User(0)   // voter, 1090 LEMO (5 balance votes; a fee alone does not cross a step)
+	kW  = node.User(1)   // second voter, 700 LEMO (3 balance votes)
+	kX  = node.User(2)   // counterparty of V's transfers, 2000 LEMO, never votes
+	kC1 = node.K("c1")   // candidate registered in the prefix with deposit = MinCandidateDeposit
+	kC2 = node.K("c2")   // prospective candidate (registered by an alphabet tx)
+	kC3 = node.K("c3")   // phase R only: funded, registers for the first time inside boxes that are undone
 	kD0 = node.Deputy(0) // genesis deputy: registered candidate with deposit 0 and 0 votes
 )
 
